@@ -138,7 +138,8 @@ class C13(Prop):
             "string (delimiter removed/doubled, newline, Unicode digits, ':' without epoch, arch 'rpm', '.rpm' variants); exhaustive: "
             "EVERY string over {a,1,-,.,:,/} up to length 6 (quick) / 8 (thorough). Each case: real parse_nvra vs the Lean model "
             "(correspondence), parts recovered, canonical re-format + parse is a fixed point (Rpms._check_nevra); for raw/exhaustive "
-            "strings the oracle is a regex-free reference decomposition (rsplit) wherever the string has the documented shape. "
+            "strings the oracle is a regex-free reference decomposition (rsplit) wherever the string has the documented shape, and the "
+            "canonical fixed point for EVERY string that parses (arch 'rpm' excepted). "
             "purity probe on a share of both streams (parse_nvra and Rpms._check_nevra): call, mutate every key of the "
             "returned dict and clear it, call again, require the first answer and fresh objects; "
             "non-trivial = distinct case whose real parse succeeded")
@@ -265,6 +266,15 @@ class C13(Prop):
             yield {"op": "int", "args": {"s": "".join(chr(rng.choice([0x30, 0x660, 0x6F0, 0x966, 0xFF10, 0x1D7CE, 0x1D7D8, 0x1D7F6]) + rng.randrange(10)) for _ in range(n))}}
         for fn in ("parse_nvra", "Rpms._check_nevra"):
             yield {"op": "purity", "args": {"fn": fn, "s": "glibc-common-0:2.17-78.el7.x86_64.rpm", "sequence": PURITY_SEQUENCE}}
+        # the third regex-driven parser that hands out match.groupdict(): Modules.parse_uid (staticmethod, driven directly;
+        # it has no model op here, so only the probe's own oracle applies)
+        for uid in ("mod:stream", "mod:stream:20180101", "mod:stream:20180101:deadbeef", "dir/sub/mod:s:1:c", "no-colon", "a:b:c:d:e",
+                    "perl-App:1.0:8010020190322:6b9b1e2d", ":x", "m:\u0661"):
+            yield {"op": "purity", "args": {"fn": "Modules.parse_uid", "s": uid, "sequence": PURITY_SEQUENCE}}
+        for j in range(40 if tier == "quick" else 400):
+            parts = ["".join(rng.choice("abcXYZ019._-+") for _ in range(rng.randint(1, 8))) for _ in range(rng.randint(1, 5))]
+            yield {"op": "purity", "args": {"fn": "Modules.parse_uid", "s": rng.choice(["", "", "d/", "a:b/"]) + ":".join(parts),
+                                              "sequence": PURITY_SEQUENCE}}
         for s in ("", "-", "--.", "a-1-1", "a-1-1.rpm", "foo:bar", "a-1:-.", "a-:1-1.x", "a--1:1-1.x", "a-1-1.x\n", "a-1-1.x.rpm\n",
                   "a/-1-1.x", "/", "a-1-1.rpm.rpm", ".rpm", "a-1-1.x\n.rpm"):
             yield {"op": "parse_raw", "args": {"s": s}}
@@ -288,6 +298,7 @@ class C13(Prop):
         a = case["args"]
         if case["op"] == "enum":
             items = []
+            fixfail = []
             count = 0
             for w in itertools.product(a["alphabet"], repeat=a["n"]):
                 s = a["prefix"] + "".join(w)
@@ -295,13 +306,25 @@ class C13(Prop):
                 r = guarded(productmd.common.parse_nvra, s)
                 if r != {"err": "ValueError"}:
                     items.append([s, r])
+                    # C13_fixpoint_exact: EVERY parse result re-formats to a string that parses to the same parts (arch 'rpm' excepted)
+                    if "ok" in r and r["ok"].get("arch") != "rpm" and len(fixfail) < 3:
+                        again = guarded(productmd.common.parse_nvra, canon_str(r["ok"]))
+                        if again != r:
+                            fixfail.append({"input": s, "parts": r, "canonical": canon_str(r["ok"]), "reparse": again})
             key = checklib.key_of(case)
             self._enum[("real", key)] = items
+            self._enum[("fixfail", key)] = fixfail
             return {"strings": count, "parsed": len(items), "digest": hashlib.sha1(json.dumps(items, sort_keys=True).encode()).hexdigest()}
         if case["op"] == "int":
             return guarded(int, a["s"])
         if case["op"] == "purity":
-            f = productmd.common.parse_nvra if a["fn"] == "parse_nvra" else (lambda x: list(productmd.rpms.Rpms()._check_nevra(x)))
+            if a["fn"] == "Modules.parse_uid":
+                import productmd.modules
+                f = productmd.modules.Modules.parse_uid
+            elif a["fn"] == "parse_nvra":
+                f = productmd.common.parse_nvra
+            else:
+                f = lambda x: list(productmd.rpms.Rpms()._check_nevra(x))   # noqa
             return purity_probe(f, a["s"])
         s = fmt(a) if case["op"] == "parse" else a["s"]
         out = {"parse": guarded(productmd.common.parse_nvra, s), "canon": None, "reparse": None,
@@ -328,6 +351,8 @@ class C13(Prop):
             return [{"op": "parse_nvra_enum", "args": a}]
         if case["op"] == "int":
             return [{"op": "py_int_digits", "args": a}]
+        if case["op"] == "purity" and a["fn"] == "Modules.parse_uid":
+            return []
         if case["op"] == "purity":      # the model is a pure function: its single answer must be the FIRST real answer
             return [{"op": "parse_nvra" if a["fn"] == "parse_nvra" else "check_nevra", "args": {"s": a["s"]}}]
         s = fmt(a) if case["op"] == "parse" else a["s"]
@@ -372,6 +397,9 @@ class C13(Prop):
         a = case["args"]
         if case["op"] == "enum":
             items = dict((s, v) for s, v in self._enum.get(("real", checklib.key_of(case)), []))
+            for ff in self._enum.get(("fixfail", checklib.key_of(case)), []):
+                return {"observed": ff, "required": "the canonical re-formatting of any parse result parses to the same parts",
+                        "kind": "canonical-form-not-fixed-point", "single": {"op": "parse_raw", "args": {"s": ff["input"]}}}
             for w in itertools.product(a["alphabet"], repeat=a["n"]):
                 s = a["prefix"] + "".join(w)
                 want = spec_split(s)
@@ -398,6 +426,13 @@ class C13(Prop):
         else:
             s, want = a["s"], spec_split(a["s"])
         if want is None:
+            # outside the documented shape only the general fixed point is claimed (C13_fixpoint_exact)
+            pr = real_out["parse"]
+            if "ok" in pr and pr["ok"].get("arch") != "rpm" and (real_out["reparse"] != pr or real_out.get("refmt") != real_out["canon"]):
+                return {"observed": {"input": s, "parts": pr, "canonical": real_out["canon"], "reparse": real_out["reparse"],
+                                     "re-formatted": real_out.get("refmt")},
+                        "required": "the canonical re-formatting of any parse result parses to the same parts",
+                        "kind": "canonical-form-not-fixed-point"}
             return None
         f = self.check_string(s, real_out["parse"], want)
         if f:
@@ -505,7 +540,12 @@ MANIFEST = dict(
          "line feed (version without ':' when no epoch is given) and every architecture of the regenerated RPM_ARCHES, parseNvra of "
          "dir+name-[epoch:]version-release.arch[.rpm] returns exactly those parts (epoch 0 when absent) - no length bound. C13_fixpoint: the "
          "canonical re-formatting parses to the same parts. The model runs the regenerated pattern through the engine model "
-         "(parseNvra = strip .rpm, pyMatch Gen.re_common_RPM_NVRA_RE, groupdict, `or 0`, int()).",
+         "(parseNvra = strip .rpm, pyMatch Gen.re_common_RPM_NVRA_RE, groupdict, `or 0`, int()). C13_parser_exact: on EVERY string "
+         "(no domain hypothesis) parseNvra equals the directly written parser Spec.parseNvraDirect (first line only; directory through "
+         "the last '/' after which the rest still parses; name up to the last '-' after which [epoch:]version-release.arch can still be "
+         "found; epoch = leading digit run + ':' when the rest still splits; version up to the last '-' with a '.' to its right; release "
+         "up to the last '.'), which also describes what Rpms.add does with names outside the documented shape. C13_fixpoint_exact: for "
+         "EVERY string that parses (arch literally 'rpm' excepted) the canonical re-formatting parses to the same parts.",
     note="Epochs of more than 4300 digits raise ValueError (CPython int/str limit): theorem C13_parse_epoch_limit, known finding F19. "
          "Unicode decimal digits in the epoch position are accepted by the code (\\d, int()); modelled and compared, not part of the claim.",
     ref="7/C13")
